@@ -410,8 +410,8 @@ func runCase(r *mon.Run, idx int) {
 }
 
 func Run(r *mon.Run) {
-	r.Rule = "each case: one broker, 10-70 numbered operator lines (empty, 1 B-128 KiB, embedded newlines as produced by Ctrl+I inserts, all byte values, invalid UTF-8, format verbs), entered directly or through opshell.ChanWriter, free-running or in lock-step (next line only after the previous was seen written and flushed), while a series of 1-8 shells (uni/bidirectional; writer kinds plain, http.Flusher, FlushError, both) attach and end by context cancel, peer EOF, peer cancel, k-th write failing (complete or short) or k-th flush failing, with lines entered while no shell is attached. The recorded Write/Flush events of all writers, in global order, are replayed against the entered sequence: exact bytes, no gap, no duplicate, no reorder, only a line whose own write failed may be missing, flush before the next line. A final healthy shell must receive everything still queued. distinct = distinct (shell plans, line count, mode, capacity); all are non-trivial (>= 10 lines, >= 1 shell). Engine pty: the real binary on a pseudo-terminal; numbered lines are pasted at the prompt while no shell is attached (fewer than, exactly about, and several hundred more than the 1024 the line queue holds), then a fake shell attaches over raw TLS (/i/{id} or /io) and must read exactly the entered sequence; 2-3 generations per session, each followed by lock-step lines typed with the shell attached"
-	r.Assumptions = []string{"a line whose flush failed counts as written (the harness writer has already recorded its bytes)"}
+	r.Rule = "each case: one broker, 10-70 numbered operator lines (empty, 1 B-128 KiB, embedded newlines as produced by Ctrl+I inserts, all byte values, invalid UTF-8, format verbs), entered directly or through opshell.ChanWriter, free-running or in lock-step (next line only after the previous was seen written and flushed), while a series of 1-8 shells (uni/bidirectional; writer kinds plain, http.Flusher, FlushError, both) attach and end by context cancel, peer EOF, peer cancel, k-th write failing (complete or short) or k-th flush failing, with lines entered while no shell is attached. The recorded Write/Flush events of all writers, in global order, are replayed against the entered sequence: exact bytes, no gap, no duplicate, no reorder, only a line whose own write failed may be missing, flush before the next line. A final healthy shell must receive everything still queued. distinct = distinct (shell plans, line count, mode, capacity); all are non-trivial (>= 10 lines, >= 1 shell). Engine pty: the real binary on a pseudo-terminal; numbered lines are pasted at the prompt while no shell is attached (fewer than, exactly about, and several hundred more than the 1024 the line queue holds), then a fake shell attaches over raw TLS (/i/{id} or /io) and must read exactly the entered sequence; 2-3 generations per session, each followed by lock-step lines typed with the shell attached. Engine tab: the operator's Tab / Ctrl+I key on the real binary started with -ctrl-i <source>; sources are a single file no converter knows (arbitrary bytes), a single shell-functions file and a directory of .sh/.subr/.pl files, grown so that the generated insert is small, within one byte of 4/8/16/32/64/128 KiB and 1 MiB, in between, several hundred KiB and about 1 MiB; Tab is pressed while no shell is attached (insert held for the next shell) and with a shell attached, right behind a typed line in the same keyboard write, on an empty prompt and in the middle of a half-typed line, with ordinary typed lines before and after; the fake shell (raw TLS, /i/{id} or /io) must receive every typed line once, in the order entered, and every insert as exactly the payload bytes followed by exactly one newline, nothing between or inside; the expected payload bytes are those the same binary prints with -print-ctrl-i for the same source (what the payload is, is another property's business)"
+	r.Assumptions = []string{"a line whose flush failed counts as written (the harness writer has already recorded its bytes)", "engine tab: an insert is entered when its key is processed, but it is queued by a goroutine of its own, so a line typed after Tab is ordered behind the insert only once the insert is known to be queued; the engine therefore types the next line only after the terminal has printed the 'Inserted n bytes' notice (printed after queueing, lib/opshell/insert.go) or after the shell has received the insert; a missing notice is not a verdict (a shell is attached instead and must then receive the insert); a line typed before Tab is queued before the key is processed and must precede the insert", "engine tab: the source files do not change between -print-ctrl-i and the key presses"}
 	n := r.N(800, 20000)
 	if r.WantEngine("series") {
 		mon.Parallel(n, runtime.NumCPU(), func(i int) {
@@ -425,6 +425,9 @@ func Run(r *mon.Run) {
 	}
 	if r.WantEngine("pty") {
 		ptySessions(r)
+	}
+	if r.WantEngine("tab") {
+		tabSessions(r)
 	}
 	r.Floor("lines_delivered", 5000)
 	r.Floor("shells", 1000)
